@@ -20,7 +20,10 @@ import (
 	"encoding/hex"
 	"encoding/json"
 	"fmt"
+	"io"
 	"log"
+	"net/http"
+	"net/http/httptest"
 	"net/netip"
 	"os"
 	"path/filepath"
@@ -35,6 +38,7 @@ import (
 	"github.com/gopacket/gopacket/pcapgo"
 	"github.com/spq/pkappa2/internal/index"
 	"github.com/spq/pkappa2/internal/query"
+	"github.com/spq/pkappa2/internal/tools/bitmask"
 )
 
 // ---------------------------------------------------------------- gate controller
@@ -199,55 +203,113 @@ type vcViewObs struct {
 	Held []string `json:"held"`
 	Ans  string   `json:"ans"`
 	Errs []string `json:"errs,omitempty"`
+	Tags string   `json:"tags"` // the view's own copy of the tag details (matches / uncertain bits per tag), read after ALL batteries of the step
+	Pre  bool     `json:"pre,omitempty"`
 }
 
 type vcStep struct {
-	H       string               `json:"h,omitempty"`
-	Act     []interface{}        `json:"act,omitempty"`
-	St      *vcState             `json:"st,omitempty"`
-	Parked  map[string]string    `json:"parked,omitempty"`
-	Dir     []string             `json:"dir"`
-	Views   map[string]vcViewObs `json:"views,omitempty"`
-	Locks   uint                 `json:"locks"`
-	NIdx    int                  `json:"nidx"`
-	NQueue  int                  `json:"nqueue"`
-	NPcaps  int                  `json:"npcaps"`
-	Events  int                  `json:"events"`
-	EvPcaps int                  `json:"evpcaps"`
-	Log     []string             `json:"log,omitempty"`
-	Fatal   string               `json:"fatal,omitempty"`
-	End     bool                 `json:"end,omitempty"`
+	H        string               `json:"h,omitempty"`
+	Act      []interface{}        `json:"act,omitempty"`
+	St       *vcState             `json:"st,omitempty"`
+	Parked   map[string]string    `json:"parked,omitempty"`
+	Dir      []string             `json:"dir"`
+	Views    map[string]vcViewObs `json:"views,omitempty"`
+	Locks    uint                 `json:"locks"`
+	NIdx     int                  `json:"nidx"`
+	NQueue   int                  `json:"nqueue"`
+	NPcaps   int                  `json:"npcaps"`
+	Reported []string             `json:"reported,omitempty"` // capture files named by the pcap-processed webhook calls of this action
+	Events   int                  `json:"events"`
+	EvPcaps  int                  `json:"evpcaps"`
+	Log      []string             `json:"log,omitempty"`
+	Fatal    string               `json:"fatal,omitempty"`
+	End      bool                 `json:"end,omitempty"`
 }
 
 type vcView struct {
 	id   int
 	v    View
 	open bool
+	pre  bool // this view's battery asks with PrefetchAllTags (lazy evaluation of uncertain tags into the view's own copy)
+}
+
+// webhook receiver: the pcap-processed report that names the processed capture files
+type vcHooks struct {
+	mu    sync.Mutex
+	calls [][]string
+}
+
+var vcHook = &vcHooks{}
+var vcHookSrv *httptest.Server
+
+func (h *vcHooks) ServeHTTP(w http.ResponseWriter, req *http.Request) {
+	body, _ := io.ReadAll(req.Body)
+	names := []string{}
+	var abs []string
+	if json.Unmarshal(body, &abs) == nil {
+		for _, a := range abs {
+			names = append(names, filepath.Base(a))
+		}
+	}
+	h.mu.Lock()
+	h.calls = append(h.calls, names)
+	h.mu.Unlock()
+	w.WriteHeader(200)
+}
+
+func (h *vcHooks) count() int {
+	h.mu.Lock()
+	defer h.mu.Unlock()
+	return len(h.calls)
+}
+
+func vcBits(bm bitmask.LongBitmask) string {
+	var sb strings.Builder
+	for i := uint(0); bm.Next(&i); i++ {
+		fmt.Fprintf(&sb, "%d.", i)
+	}
+	return sb.String()
+}
+
+// tagSnap renders the view's own tag details.
+func vcTagSnap(v *View) string {
+	names := []string{}
+	for n := range v.tagDetails {
+		names = append(names, n)
+	}
+	sort.Strings(names)
+	var sb strings.Builder
+	for _, n := range names {
+		td := v.tagDetails[n]
+		fmt.Fprintf(&sb, "%s:M=%s:U=%s;", n, vcBits(td.Matches), vcBits(td.Uncertain))
+	}
+	return sb.String()
 }
 
 type vcRun struct {
-	t       *testing.T
-	mgr     *Manager
-	sc      *vcScenario
-	dir     string
-	pcapDir string
-	idxDir  string
-	seen    map[string]bool
-	views   []*vcView
-	queries []*query.Query
-	qtext   []string
-	nextCap int
-	nextTag int
-	nextDef int
-	lastSt  *vcState
-	mergeIn string // last file of the index list when the live merge job was launched (certainly one of its inputs)
-	mergeOn bool
-	jobTag  string // tag the live tagging job works on ("" none, "?" not identifiable: several tags were uncertain at launch)
-	tagLive bool
-	logs    *vcLogBuf
-	evMu    sync.Mutex
-	events  int
-	evPcaps int
+	t        *testing.T
+	mgr      *Manager
+	sc       *vcScenario
+	dir      string
+	pcapDir  string
+	idxDir   string
+	seen     map[string]bool
+	views    []*vcView
+	queries  []*query.Query
+	qtext    []string
+	nextCap  int
+	nextTag  int
+	nextDef  int
+	lastSt   *vcState
+	mergeIn  string // last file of the index list when the live merge job was launched (certainly one of its inputs)
+	mergeOn  bool
+	hookSeen int    // webhook calls already attributed to an action
+	jobTag   string // tag the live tagging job works on ("" none, "?" not identifiable: several tags were uncertain at launch)
+	tagLive  bool
+	logs     *vcLogBuf
+	evMu     sync.Mutex
+	events   int
+	evPcaps  int
 }
 
 var vcT0 = time.Date(2020, 1, 1, 12, 0, 0, 0, time.UTC)
@@ -468,14 +530,25 @@ func (r *vcRun) battery(vv *vcView) vcViewObs {
 		}
 		sb.WriteString("!" + e)
 	}
+	opts := []StreamsOption{}
+	if vv.pre {
+		opts = append(opts, PrefetchAllTags())
+	}
+	var tb strings.Builder
 	sb.WriteString("A=")
 	if err := v.AllStreams(ctx, func(sc StreamContext) error {
 		s := sc.Stream()
 		fmt.Fprintf(&sb, "%d:%d:%d,", s.ID(), uint64(s.ClientPort)-1000, s.ClientBytes)
+		tags, err := sc.AllTags()
+		if err != nil {
+			return err
+		}
+		fmt.Fprintf(&tb, "%d:%s,", s.ID(), strings.Join(tags, "+"))
 		return nil
-	}); err != nil {
+	}, opts...); err != nil {
 		fail("AllStreams", err)
 	}
+	sb.WriteString(" T=" + tb.String())
 	sb.WriteString(" S=")
 	for id := 0; id < r.sc.Probe; id++ {
 		sc, err := v.Stream(uint64(id))
@@ -503,7 +576,7 @@ func (r *vcRun) battery(vv *vcView) vcViewObs {
 		more, _, _, err := v.SearchStreams(ctx, q, func(sc StreamContext) error {
 			fmt.Fprintf(&sb, "%d:%d,", sc.Stream().ID(), sc.Stream().ClientBytes)
 			return nil
-		})
+		}, opts...)
 		if err != nil {
 			fail("SearchStreams("+r.qtext[i]+")", err)
 		} else if more {
@@ -514,6 +587,7 @@ func (r *vcRun) battery(vv *vcView) vcViewObs {
 		obs.Held = append(obs.Held, vcBase(idx.Filename()))
 	}
 	obs.Ans = sb.String()
+	obs.Pre = vv.pre
 	return obs
 }
 
@@ -548,6 +622,13 @@ func (r *vcRun) observe(act []interface{}) *vcStep {
 			nviews++
 		}
 	}
+	for _, vv := range r.views {
+		if vv.open { // after every view was asked: nobody but the view itself may have touched its copy of the tag details
+			o := step.Views[fmt.Sprint(vv.id)]
+			o.Tags = vcTagSnap(&vv.v)
+			step.Views[fmt.Sprint(vv.id)] = o
+		}
+	}
 	if nviews != 0 {
 		// the state is dumped again after the reads (reads must not change it; if they do, the dump shows it)
 		st2, parked2, fatal2 := r.settle()
@@ -576,6 +657,11 @@ func (r *vcRun) observe(act []interface{}) *vcStep {
 	r.evMu.Lock()
 	step.Events, step.EvPcaps = r.events, r.evPcaps
 	r.evMu.Unlock()
+	vcHook.mu.Lock()
+	for ; r.hookSeen < len(vcHook.calls); r.hookSeen++ {
+		step.Reported = append(step.Reported, vcHook.calls[r.hookSeen]...)
+	}
+	vcHook.mu.Unlock()
 	step.Log = r.logs.bad()
 	if st := step.St; st != nil {
 		r.lastSt = st
@@ -667,11 +753,14 @@ func (r *vcRun) apply(op []json.RawMessage) []interface{} {
 		}
 		r.mgr.ImportPcaps(names)
 		return []interface{}{"import", caps}
-	case "view":
-		vv := &vcView{id: len(r.views), v: r.mgr.GetView(), open: true}
+	case "view", "viewp":
+		vv := &vcView{id: len(r.views), v: r.mgr.GetView(), open: true, pre: vcArgStr(op, 0) == "viewp"}
 		r.views = append(r.views, vv)
 		if err := vv.v.fetch(); err != nil {
 			panic(err)
+		}
+		if vv.pre {
+			return []interface{}{"view", vv.id, "p"}
 		}
 		return []interface{}{"view", vv.id}
 	case "read", "release":
@@ -847,10 +936,15 @@ func (r *vcRun) stepJob(kind, phase string) []interface{} {
 	r.evMu.Lock()
 	ev := r.events
 	r.evMu.Unlock()
+	hooks := vcHook.count()
 	vcCtl.release(kind)
 	if phase == "done" {
 		if kind == "import" {
 			r.waitEvents(ev + 1)
+			deadline := time.Now().Add(5 * time.Second)
+			for vcHook.count() < hooks+1 && time.Now().Before(deadline) {
+				time.Sleep(time.Millisecond)
+			}
 		}
 		return []interface{}{"complete", kind}
 	}
@@ -901,6 +995,9 @@ func (r *vcRun) scenario(w *bufio.Writer) {
 			panic(fmt.Sprintf("manager.New: %v", err))
 		}
 		r.mgr = mgr
+		if err := mgr.AddPcapProcessorWebhook(vcHookSrv.URL); err != nil && !strings.Contains(err.Error(), "already exists") {
+			panic(err)
+		}
 		evc, _ := mgr.Listen()
 		go func() {
 			for e := range evc {
@@ -1068,6 +1165,8 @@ func TestVerifC10(t *testing.T) {
 	log.SetOutput(logs)
 	defer log.SetOutput(os.Stderr)
 	VerifGate = vcGate
+	vcHookSrv = httptest.NewServer(vcHook)
+	defer vcHookSrv.Close()
 	sc := bufio.NewScanner(f)
 	sc.Buffer(make([]byte, 1<<20), 1<<26)
 	for sc.Scan() {
@@ -1080,7 +1179,7 @@ func TestVerifC10(t *testing.T) {
 			t.Fatalf("bad scenario: %v", err)
 		}
 		logs.bad()
-		r := &vcRun{t: t, sc: &s, logs: logs}
+		r := &vcRun{t: t, sc: &s, logs: logs, hookSeen: vcHook.count()}
 		r.scenario(w)
 	}
 }
